@@ -208,6 +208,10 @@ def acquire_post():
         v0 = old_view(E, a.self, old)
         return z3.Implies(z3.And(v0['mine'], v0['re']), res.t)
 
+    def blocking_untimed_only_returns_true(E, a, old, res):
+        bl, to = eff(a, a.self.fields['timeout'].t)
+        return z3.Implies(z3.And(bl, to < 0), res.t)
+
     def nonblocking_returns_at_once(E, a, old, res):
         bl, to = eff(a, a.self.fields['timeout'].t)
         return z3.Implies(z3.Not(bl), E.w['now'] == old.w['now'])
@@ -230,6 +234,7 @@ def acquire_post():
             ('false_leaves_everything_as_it_was', {'C12'}, false_changes_nothing),
             ('nonreentrant_refuses_second_acquire', {'C12'}, nonreentrant_refuses_second),
             ('reentrant_owner_reacquires', {'C12'}, reentrant_owner_always_gets_it),
+            ('blocking_untimed_acquire_only_returns_True', {'C12'}, blocking_untimed_only_returns_true),
             ('nonblocking_returns_at_once', {'C12'}, nonblocking_returns_at_once),
             ('timed_returns_within_2_timeouts_plus_poll', {'C12'}, timed_within_two_stages_plus_poll),
         ],
